@@ -351,6 +351,90 @@ func s4Copy() []BashCase {
 	return cases
 }
 
+// S7: several builtin results meet in ONE expression or argument list. Each operand kind has a register of its own
+// in the back ends (a length, a substring, a copied count, a return value); an operand that hands out the register
+// itself instead of a copy of it is overwritten by the next operand of the same statement.
+func s7BuiltinResultsMeet() []BashCase {
+	cases := []BashCase{}
+	type operand struct {
+		name  string
+		setup func(tag string) []Stmt
+		e     func(tag string) Expr
+	}
+	intOps := []operand{
+		{"copy", func(t string) []Stmt {
+			return []Stmt{VarDecl{Names: []string{"d" + t}, Type: TSliceInt}, def("s"+t, SliceLit{TInt, []Expr{il(4), il(5), il(6)}})}
+		}, func(t string) Expr { return Copy{"d" + t, vr("s" + t)} }},
+		{"len-slice", func(t string) []Stmt { return []Stmt{def("l"+t, SliceLit{TInt, []Expr{il(7)}})} }, func(t string) Expr { return Len{vr("l" + t)} }},
+		{"len-slice-12", func(t string) []Stmt {
+			return []Stmt{VarDecl{Names: []string{"m" + t}, Type: TSliceString}, SliceSet{"m" + t, il(11), sl("e")}}
+		}, func(t string) Expr { return Len{vr("m" + t)} }},
+		{"len-string", func(t string) []Stmt { return []Stmt{def("w"+t, sl("seven c"))} }, func(t string) Expr { return Len{vr("w" + t)} }},
+		{"len-substr", func(t string) []Stmt { return []Stmt{def("u"+t, sl("abcdefgh"))} }, func(t string) Expr { return Len{Substr{"u" + t, il(2), il(7)}} }},
+		{"index", func(t string) []Stmt { return []Stmt{def("x"+t, SliceLit{TInt, []Expr{il(20), il(30)}})} }, func(t string) Expr { return Index{"x" + t, il(1)} }},
+		{"call", func(t string) []Stmt { return nil }, func(t string) Expr { return call("nine") }},
+		{"call-len", func(t string) []Stmt { return nil }, func(t string) Expr { return call("width", sl("four")) }},
+	}
+	strOps := []operand{
+		{"char", func(t string) []Stmt { return []Stmt{def("c"+t, sl("xyz"))} }, func(t string) Expr { return Index{"c" + t, il(1)} }},
+		{"substr", func(t string) []Stmt { return []Stmt{def("b"+t, sl("abcdef"))} }, func(t string) Expr { return Substr{"b" + t, il(1), il(4)} }},
+		{"substr-open", func(t string) []Stmt { return []Stmt{def("o"+t, sl("pqrs"))} }, func(t string) Expr { return Substr{"o" + t, il(2), nil} }},
+		{"itoa", func(t string) []Stmt { return []Stmt{def("n"+t, il(42))} }, func(t string) Expr { return Itoa{vr("n" + t)} }},
+		{"itoa-len", func(t string) []Stmt { return []Stmt{def("k"+t, sl("12345"))} }, func(t string) Expr { return Itoa{Len{vr("k" + t)}} }},
+		{"elem", func(t string) []Stmt { return []Stmt{def("e"+t, SliceLit{TString, []Expr{sl("el0"), sl("el1")}})} }, func(t string) Expr { return Index{"e" + t, il(1)} }},
+		{"call", func(t string) []Stmt { return nil }, func(t string) Expr { return call("word") }},
+		{"call-sub", func(t string) []Stmt { return nil }, func(t string) Expr { return call("mid", sl("hello")) }},
+	}
+	prelude := []Stmt{
+		fn("nine", nil, []Type{TInt}, ret(il(9))),
+		fn("width", []Param{{"s", TString}}, []Type{TInt}, ret(Len{vr("s")})),
+		fn("word", nil, []Type{TString}, ret(sl("wd"))),
+		fn("mid", []Param{{"s", TString}}, []Type{TString}, ret(Substr{"s", il(1), il(3)})),
+		fn("addi", []Param{{"a", TInt}, {"b", TInt}}, []Type{TInt}, ret(bin("+", bin("*", vr("a"), il(100)), vr("b")))),
+		fn("cat", []Param{{"a", TString}, {"b", TString}}, []Type{TString}, ret(bin("+", bin("+", vr("a"), sl("/")), vr("b")))),
+		fn("both", []Param{{"a", TInt}, {"b", TInt}}, []Type{TInt, TInt}, ret(vr("a"), vr("b"))),
+	}
+	build := func(kind string, ops []operand, isInt bool) {
+		for _, a := range ops {
+			for _, b := range ops {
+				body := append([]Stmt{}, a.setup("1")...)
+				body = append(body, b.setup("2")...)
+				x, y := a.e("1"), b.e("2")
+				var uses []Stmt
+				if isInt {
+					uses = []Stmt{
+						pr(bin("+", bin("*", x, il(1000)), y)),
+					}
+					body2 := append(append([]Stmt{}, a.setup("3")...), b.setup("4")...)
+					x2, y2 := a.e("3"), b.e("4")
+					body3 := append(append([]Stmt{}, a.setup("5")...), b.setup("6")...)
+					x3, y3 := a.e("5"), b.e("6")
+					body4 := append(append([]Stmt{}, a.setup("7")...), b.setup("8")...)
+					x4, y4 := a.e("7"), b.e("8")
+					uses = append(uses, body2...)
+					uses = append(uses, pr(x2, y2), pr(cmp("<", x2, y2)))
+					uses = append(uses, body3...)
+					uses = append(uses, pr(call("addi", x3, y3)))
+					body5 := append(append([]Stmt{}, a.setup("9")...), b.setup("10")...)
+					uses = append(uses, body5...)
+					uses = append(uses, pr(bin("+", a.e("9"), b.e("10")), sl("sum")))
+					uses = append(uses, body4...)
+					uses = append(uses, VarDecl{Names: []string{"p", "q"}, Short: true, Values: []Expr{call("both", x4, y4)}}, pr(vr("p"), vr("q")))
+				} else {
+					uses = []Stmt{pr(framed(bin("+", bin("+", x, sl("|")), y))), pr(framed(x), framed(y), cmp("==", x, y)), pr(call("cat", x, y))}
+				}
+				top := append(append(append([]Stmt{}, prelude...), body...), uses...)
+				cases = append(cases, BashCase{Key: "S7/" + kind + "/" + a.name + "+" + b.name + "/top", Prog: SingleFile(top)})
+				inF := append(append([]Stmt{}, prelude...), fn("run", nil, nil, append(append([]Stmt{}, body...), uses...)...), callS("run"))
+				cases = append(cases, BashCase{Key: "S7/" + kind + "/" + a.name + "+" + b.name + "/in-function", Prog: SingleFile(inF)})
+			}
+		}
+	}
+	build("int", intOps, true)
+	build("string", strOps, false)
+	return cases
+}
+
 // S5: range.
 func s5Range() []BashCase {
 	rng := func(idx, val string, over Expr, body ...Stmt) Stmt {
@@ -451,6 +535,7 @@ func c03Families(c *Check) []BashCase {
 	cases = append(cases, s4Copy()...)
 	cases = append(cases, s5Range()...)
 	cases = append(cases, s6Histories()...)
+	cases = append(cases, s7BuiltinResultsMeet()...)
 	return cases
 }
 
